@@ -2592,41 +2592,27 @@ impl<'a> Visitor<'a, '_, Error> for JSONValidator<'a> {
       #[cfg(feature = "additional-controls")]
       Type2::B16ByteString { value, .. } => {
         if let Some(ctrl) = &self.state.ctrl {
-          // For B16ByteString, the value contains the hex string as bytes (ASCII representation)
-          // We need to decode it to get the actual bytes
-          let hex_str = match std::str::from_utf8(value) {
-            Ok(s) => s,
-            Err(_) => {
-              self.add_error("invalid UTF-8 in hex string".to_string());
-              return Ok(());
+          // The parser has already decoded the base16 literal: `value` holds
+          // the bytes it denotes
+          match ctrl {
+            ControlOperator::B64U => self.validate_b64_control(value, false, false),
+            ControlOperator::B64C => self.validate_b64_control(value, true, false),
+            ControlOperator::B64USLOPPY => self.validate_b64_control(value, false, true),
+            ControlOperator::B64CSLOPPY => self.validate_b64_control(value, true, true),
+            ControlOperator::HEX => {
+              self.validate_hex_control(value, crate::validator::control::HexCase::Any)
             }
-          };
-
-          match hex::decode(hex_str.replace(' ', "")) {
-            Ok(actual_bytes) => match ctrl {
-              ControlOperator::B64U => self.validate_b64_control(&actual_bytes, false, false),
-              ControlOperator::B64C => self.validate_b64_control(&actual_bytes, true, false),
-              ControlOperator::B64USLOPPY => self.validate_b64_control(&actual_bytes, false, true),
-              ControlOperator::B64CSLOPPY => self.validate_b64_control(&actual_bytes, true, true),
-              ControlOperator::HEX => {
-                self.validate_hex_control(&actual_bytes, crate::validator::control::HexCase::Any)
-              }
-              ControlOperator::HEXLC => {
-                self.validate_hex_control(&actual_bytes, crate::validator::control::HexCase::Lower)
-              }
-              ControlOperator::HEXUC => {
-                self.validate_hex_control(&actual_bytes, crate::validator::control::HexCase::Upper)
-              }
-              _ => {
-                self.add_error(format!(
-                  "unsupported byte string data type for JSON validation with control {}, got {}",
-                  ctrl, t2
-                ));
-                Ok(())
-              }
-            },
-            Err(_) => {
-              self.add_error("invalid hex encoding in byte string".to_string());
+            ControlOperator::HEXLC => {
+              self.validate_hex_control(value, crate::validator::control::HexCase::Lower)
+            }
+            ControlOperator::HEXUC => {
+              self.validate_hex_control(value, crate::validator::control::HexCase::Upper)
+            }
+            _ => {
+              self.add_error(format!(
+                "unsupported byte string data type for JSON validation with control {}, got {}",
+                ctrl, t2
+              ));
               Ok(())
             }
           }
